@@ -1,5 +1,5 @@
 """Unit registry: which assembled Verus files exist and which properties each carries."""
-from units import expr, builder, smallslices, tables, dfa, bindings, elim, regexp, render, fmtunit, nested, minimize, indent, charcount
+from units import expr, builder, smallslices, tables, dfa, bindings, elim, regexp, render, fmtunit, nested, minimize, indent, charcount, repeats
 
 REGISTRY = {
     'expr':     lambda repo, sd, canary=False: expr.build(repo, sd, canary=canary),
@@ -25,6 +25,7 @@ REGISTRY = {
     'minimize': lambda repo, sd, canary=False: minimize.build(repo, sd, canary=canary),
     'indent':   lambda repo, sd, canary=False: indent.build(repo, sd, canary=canary),
     'charcount': lambda repo, sd, canary=False: charcount.build(repo, sd, canary=canary),
+    'repeats':  lambda repo, sd, canary=False: repeats.build(repo, sd, canary=canary),
     'trie':     lambda repo, sd, canary=False: dfa.build_trie(repo, sd, canary=canary),
     'wasm':     lambda repo, sd, canary=False: bindings.build_wasm(repo, sd, canary=canary),
     'python':   lambda repo, sd, canary=False: bindings.build_python(repo, sd, canary=canary),
@@ -36,18 +37,18 @@ PROP_UNITS = {
     'C02': ['expr', 'elim', 'matrix', 'regexp', 'dfa', 'minimize', 'gates', 'render', 'format', 'charcount'],
     'C03': ['classify', 'gates', 'trie'],
     'C04': ['caseconv', 'regexp', 'render', 'builder'],
-    'C05': ['trie', 'render', 'rep', 'splice', 'charcount', 'minimize'],
+    'C05': ['trie', 'render', 'rep', 'splice', 'repeats', 'charcount', 'minimize'],
     'C06': ['render', 'format', 'trie', 'rep', 'nested', 'indent'],
-    'C07': ['expr', 'elim', 'matrix', 'regexp', 'builder', 'split', 'escaper', 'caseconv', 'rep', 'splice', 'gates', 'render', 'format', 'order', 'dfa', 'minimize', 'trie', 'cli', 'escape', 'classify', 'nested', 'indent', 'charcount'],
+    'C07': ['expr', 'elim', 'matrix', 'regexp', 'builder', 'split', 'escaper', 'caseconv', 'rep', 'splice', 'gates', 'render', 'format', 'order', 'dfa', 'minimize', 'trie', 'cli', 'escape', 'classify', 'nested', 'indent', 'charcount', 'repeats'],
     'C08': ['render', 'expr', 'regexp', 'format', 'indent'],
     'C09': ['tables', 'classify'],
     'C10': ['builder', 'regexp', 'gates', 'order', 'dfa'],
     'C11': ['escape', 'builder', 'format', 'nested', 'split'],
     'C12': ['cli', 'gates', 'builder'],
-    'C13': ['rep', 'splice', 'builder', 'render', 'trie'],
+    'C13': ['rep', 'splice', 'repeats', 'builder', 'render', 'trie'],
     'C14': ['python'],
     'C15': ['render', 'indent'],
-    'C16': ['expr', 'elim', 'matrix', 'regexp', 'dfa', 'dfa_kf', 'minimize', 'trie', 'render', 'format', 'charcount'],
+    'C16': ['expr', 'elim', 'matrix', 'regexp', 'dfa', 'dfa_kf', 'minimize', 'trie', 'render', 'format', 'charcount', 'repeats'],
     'C17': ['wasm'],
 }
 # dfa_kf holds exactly the known-finding clause (its canary would be redundant with dfa's); tables has no function with a context
